@@ -37,8 +37,8 @@ def shOutputStdio : String :=
 
 def evaluateSkeleton : String :=
   String.join [
-    "(block (range v9 v10 (call (. v1 EvaluateTargets) v6 ...) (block (if _ (!= (. v10 Error) nil) (block (typeswitch _ _ (case (UnknownTargetError) (call (. (. v2 events) TargetFailed) v3 (call (. fmt Errorf) \"missing dependency: %w\" (. v10 Error)))) (case ((. runner CyclicDependencyError)) (call (. (. v2 events) TargetFailed) v3 v11))) (return (call (. fmt Errorf) \"dependency %v failed\" (index v6 v9)))) _))) (:= (v15 v16 v17 v11) ((call (. (. v0 target) upToDate)))) (if _ (!= v11 nil) (block (call (. (. v2 events) TargetFailed) v3 v11) (return v11)) _) (if _ (&& (&& (&& (u! (. v2 always)) v5) v15) (u! (. v4 Rerun))) (block (call (. (. v2 events) TargetUpToDate) v3) (return nil)) _) (switch _ _ (case ((u! v15))) (case ((. v2 always))) (case ((u! v5))) (case ((. v4 Rerun)))) (call (. (. v2 even",
-    "ts) TargetEvaluating) v3 v16 v17) (if _ (. v2 dryrun) (block (call (. (. v2 events) TargetSucceeded) v3 true) (return nil)) _) (if _ (call IsTarget v3) (block (if (:= (v11) ((call (. v2 saveTargetInfo) v3 v18))) (!= v11 nil) (block (call (. (. v2 events) TargetFailed) v3 v11) (return v11)) _)) _) (:= (v19 v20 v11) ((call (. (. v0 target) evaluate)))) (if _ (!= v11 nil) (block (call (. (. v2 events) TargetFailed) v3 v11) (call (. v2 saveTargetInfo) v3 (lit targetInfo (kv Doc (call (. (. v0 target) Doc))) (kv Dependencies v7) (kv Rerun true) (kv Runs (. v4 Runs)))) (return v11)) _) (= (v11) ((call (. v2 saveTargetInfo) v3 v21))) (if _ (!= v11 nil) (block (call (. (. v2 events) TargetFailed) v3 v11) (return v11)) _) (call (. (. v2 events) TargetSucceeded) v3 v20) (return nil))"]
+    "(block (range v9 v10 (call (. v1 EvaluateTargets) v6 ...) (block (if _ (!= (. v10 Error) nil) (block (typeswitch _ _ (case (UnknownTargetError) (call (. (. v2 events) TargetFailed) v3 (call (. fmt Errorf) \"missing dependency: %w\" (. v10 Error)))) (case ((. runner CyclicDependencyError)) (call (. (. v2 events) TargetFailed) v3 v11))) (return (call (. fmt Errorf) \"dependency %v failed\" (index v6 v9)))) _))) (:= (v17 v18 v19 v11) ((call (. (. v0 target) upToDate)))) (if _ (!= v11 nil) (block (call (. (. v2 events) TargetFailed) v3 v11) (return v11)) _) (if _ (&& (&& (&& (u! (. v2 always)) v5) v17) (u! (. v4 Rerun))) (block (call (. (. v2 events) TargetUpToDate) v3) (return nil)) _) (switch _ _ (case ((u! v17))) (case ((. v2 always))) (case ((u! v5))) (case ((. v4 Rerun)))) (call (. (. v2 even",
+    "ts) TargetEvaluating) v3 v18 v19) (if _ (. v2 dryrun) (block (call (. (. v2 events) TargetSucceeded) v3 true) (return nil)) _) (if _ (call IsTarget v3) (block (if (:= (v11) ((call (. v2 saveTargetInfo) v3 v20))) (!= v11 nil) (block (call (. (. v2 events) TargetFailed) v3 v11) (return v11)) _)) _) (:= (v21 v22 v11) ((call (. (. v0 target) evaluate)))) (if _ (!= v11 nil) (block (call (. (. v2 events) TargetFailed) v3 v11) (call (. v2 saveTargetInfo) v3 (lit targetInfo (kv Doc (call (. (. v0 target) Doc))) (kv Dependencies v7) (kv Rerun true) (kv Runs (. v4 Runs)))) (return v11)) _) (= (v11) ((call (. v2 saveTargetInfo) v3 v23))) (if _ (!= v11 nil) (block (call (. (. v2 events) TargetFailed) v3 v11) (return v11)) _) (call (. (. v2 events) TargetSucceeded) v3 v22) (return nil))"]
 
 def depErrorClassification : List String :=
   ["typeswitch dep.Error.(type): UnknownTargetError, runner.CyclicDependencyError"]
